@@ -281,6 +281,8 @@ class Executor(StmtMixin, LoopMixin, DriverMixin):
             key, _ = self.reg.field_key(obj.t.cls, attr)
             if key is not None:
                 v, key, ft = self.spec.read_field(s, obj, attr)
+                if isinstance(ft, ty.RefT):
+                    self.type_facts(s, v)      # heap type invariant: a field holds an object of its declared class
                 if self.is_container(ft):
                     v = _LocSV(v.t, v.e, (obj.e, key))
                 return [(s, v)]
